@@ -25,7 +25,7 @@ from ..base import Goal
 FUNCTIONS = ['dd.bdd.BDD.var', 'dd.bdd.BDD.cube', 'dd.bdd.BDD.apply', 'dd.bdd.BDD.add_expr', 'dd.bdd.BDD.let',
              'dd.bdd.BDD.exist', 'dd.bdd.BDD.quantify', 'dd.bdd.BDD.count', 'dd.bdd.BDD.support',
              'dd.bdd.BDD.collect_garbage', 'dd.bdd.BDD.find_or_add', 'dd.bdd.BDD.ite', 'dd.bdd.BDD._ite',
-             'dd.bdd.BDD.to_expr']
+             'dd.bdd.BDD.to_expr', 'dd.bdd.BDD.__copy__']
 
 OPS = ['var', 'cube', 'apply_and', 'apply_implies_neg', 'add_expr', 'let_const', 'exist', 'count', 'support', 'to_expr']
 # through a dd.autoref wrapper that lives across both calls (the middle step is then the module-level
